@@ -303,6 +303,16 @@ def check(ctx, res) -> None:
                     bad = (f"{mname}: reports {ast.unparse(a0)} as changed under a test on a different resource "
                            f"({[ast.unparse(t) for t, p in gs if isinstance(t, ast.Call)]}): the parent folder of the resource actually tested is never "
                            "reported, so a cached package keeps a stale child table")
+                    # independence: the report for one resource's parent must not depend on the outcome of the
+                    # parent test of ANOTHER resource (an `elif` makes the destination's parent unreported whenever
+                    # the source's parent is watched too)
+                    foreign = [t for t, pol in gs if isinstance(t, ast.Call) and call_name(t) == "_is_parent_changed" and t.args
+                               and norm(t.args[0]) != subj]
+                    if ok and foreign:
+                        ok = False
+                        bad = (f"{mname}: the report of {ast.unparse(a0)} is control-dependent on the parent test of another resource "
+                               f"({ast.unparse(foreign[0])}): when both parents are watched only one of them is reported as changed, and the other "
+                               "package keeps a stale child table")
                     if ok:
                         tested_parents |= set(ranges.get(a0.value.id, [subj])) if isinstance(a0.value, ast.Name) else {subj}
                 else:
